@@ -141,8 +141,12 @@ class Checker:
 
     def roundtrip(self, t, ttl, with_opts):
         C, H, ctx = self.C, self.H, self.ctx
-        o1 = self.opts[:1] if with_opts else ()
-        o2 = self.opts[1:] if with_opts else ()
+        # option layouts: none; one per run; the same option in both runs; two in run 1 and a repeat of one of them in run 2;
+        # run 1 empty; an option twice inside one run - "preserves ... options" means both runs, as they are
+        self.rt = getattr(self, "rt", 0) + 1
+        a, b = self.opts[0], self.opts[1]
+        layouts = (((a,), (b,)), ((a,), (a,)), ((a, b), (b,)), ((), (a, b)), ((a, a), ()), ((b,), (a, b)))
+        o1, o2 = layouts[self.rt % len(layouts)] if with_opts else ((), ())
         s = C.Service(t[0], t[1], t[2], t[3], options_1=o1, options_2=o2, eventgroups=frozenset({1}))
         e = s.create_offer_entry(ttl)
         ctx.count("law_offer_roundtrip")
